@@ -488,6 +488,7 @@ func w18scenarios(c *Ctx, st w18site) []*w18scn {
 	if st.be {
 		add(0, true, false, false, true, 300)
 		add(80, true, false, false, true, 300)
+		add(600, true, false, false, true, 900) // a long deadline must not turn best-effort into a wait (beyond any scheduling slack)
 		add(0, true, false, true, true, 300)
 		add(0, true, false, false, false, 300)
 	}
